@@ -2,11 +2,42 @@
 import itertools
 import os
 
-from ..drivers.jobs import Jobs
+from ..drivers.jobs import Jobs, StartOrderMonitor, RUNNING_LIKE, gt_state
+from ..monitors import internal_errors
 from ..report import tier
 from .e1 import run_e1, replay_e1
 
-DRIVER = Jobs('C03', ['C03'])
+
+class StartJobs(Jobs):
+    """Adds the bounded-liveness half of the STOP starting failure strategy: once the in-flight starts have
+    ended, the application is stopped."""
+    name = 'jobs'
+
+    def closure_check(self, w, cfg):
+        w.round_robin(cfg.get('K', 12), settle=self.settle)
+        obs = w.drain_observations()
+        if internal_errors(obs):
+            return None
+        viols = [v for v in w.violations if v['signature'].startswith('C03')]
+        w.violations = []
+        if viols:
+            return viols[0]
+        if any(s.alive and s.fsm.state.name != 'OPERATION' for s in w.sups):
+            return None     # membership trouble / distribution not over: judged by C08
+        mon = next(m for m in w.monitors if isinstance(m, StartOrderMonitor))
+        for (sender, app_name), q in sorted(mon.failed_required.items()):
+            if mon.rv.procs[q]['starting_failure_strategy'] != 'STOP' or not w.sups[sender].alive:
+                continue
+            running = sorted((ns, i) for ns, info in mon.rv.procs.items() if info['app'] == app_name
+                             for i in w.live() if gt_state(w, i, ns) in RUNNING_LIKE
+                             and w.stop_behaviour.get((i, ns)) != 'mute')
+            if running:
+                return {'clause': 'STOP-strategy-application-not-stopped', 'signature': 'C03:STOP:not-stopped',
+                        'sender': sender, 'application': app_name, 'failed': q, 'still_running': running}
+        return None
+
+
+DRIVER = StartJobs('C03', ['C03'])
 BEH = ['run', 'backoff', 'retry', 'giveup', 'exit_ok', 'exit_bad']
 
 
@@ -65,10 +96,22 @@ def configs(t):
         app('A', 0, [prog('a', 1, required=True), prog('b', 2)], 'ABORT')],
         triggers=[['rpc', 0, 'start_application', ['CONFIG', 'A', False]]], T=4, D=1,
         behaviours=['run', 'backoff', 'giveup'], cost=6))
+    # the same after a prediction served by the same instance (a prediction must leave nothing behind)
+    out.append(base('start_application-after-prediction-D1', [
+        app('A', 0, [prog('a', 1, required=True), prog('b', 2)], 'ABORT')],
+        setup=[['rpc', 0, 'test_start_application', ['CONFIG', 'A']]],
+        triggers=[['rpc', 0, 'start_application', ['CONFIG', 'A', False]]], T=4, D=1,
+        behaviours=['run', 'backoff', 'giveup'], cost=6))
     out.append(base('start_application-mute-D1', [
         app('A', 0, [prog('a', 1, required=True), prog('b', 2)], 'STOP')],
         triggers=[['rpc', 0, 'start_application', ['CONFIG', 'A', False]]], T=7, D=1,
         mute=[[0, 'A:a', 'start'], [1, 'A:a', 'start']], behaviours=['run'], cost=6))
+    # the LAST job of the plan is the one that is given up (the jobs of the application end with it)
+    for sfs in ('STOP', 'ABORT'):
+        out.append(base(f'start_application-mute-last-{sfs}', [
+            app('A', 0, [prog('a', 1), prog('b', 2, required=True)], sfs)],
+            triggers=[['rpc', 0, 'start_application', ['CONFIG', 'A', False]]], T=7,
+            mute=[[0, 'A:b', 'start'], [1, 'A:b', 'start']], behaviours=['run', 'stopped'], cost=4))
     # the host of a required program is lost after the request and before any acknowledgement
     for sfs in ('ABORT', 'STOP'):
         out.append(base(f'host-lost-before-ack-{sfs}', [
@@ -104,7 +147,7 @@ def configs(t):
 
 
 def kwargs_of(c):
-    return {'deviations': c['D'], 'closure': 'none', 'max_seconds': c.get('max_seconds')}
+    return {'deviations': c['D'], 'closure': 'sparse', 'max_seconds': c.get('max_seconds')}
 
 
 def main():
@@ -119,7 +162,9 @@ def main():
              'Master and on a slave over tiny rules files (application and program start_sequence in {0,1,2,3}, wait_exit, '
              'required, ABORT / STOP / CONTINUE) with every process behaviour (runs, backs off then runs, backs off to '
              'FATAL, exits early, never answers, host lost) interleaved with ticks and deliveries; every emitted start '
-             'request is judged against the true Supervisor process states and the sender\'s own earlier requests',
+             'request is judged against the true Supervisor process states and the sender\'s own earlier requests; from the '
+             'states reached by a fault / request and from the terminal states a fair closure checks that an application '
+             'whose required process failed under the STOP strategy ends stopped',
         assumptions=['process transitions are urgent with respect to ticks (a tick overtaking one is a deviation)',
                      'named applications and programs only (patterns are the business of C18)'])
     return out.finish(exhaustive=complete)
